@@ -212,6 +212,18 @@ class ContractMixin:
             return mk_str(f(args[0].t, args[1].t))
         if name == "module":
             return self.module_ref(z3.simplify(args[0].t).as_string())
+        if name == "log_result":
+            suffix = z3.simplify(args[0].t).as_string()
+            calls = [env for (q, env) in st.log if q.endswith(suffix) and "__result__" in env]
+            idx = z3.simplify(args[1].t).as_long() if len(args) > 1 else -1
+            if calls and -len(calls) <= idx < len(calls):
+                return calls[idx]["__result__"]
+            ty = Str
+            for table in (dsl.REG.contracts, dsl.REG.interfaces):
+                for qn, d in table.items():
+                    if qn.endswith(suffix) and isinstance(d.returns, Ty):
+                        ty = d.returns
+            return fresh(ty, "nocall")
         if name in ("log_count", "log_arg"):
             # ghost call log of this path: calls made through contracts since the function was entered
             suffix = z3.simplify(args[0].t).as_string()
@@ -331,8 +343,10 @@ class ContractMixin:
         elif self.cur_ci is not None and decl is self.cur_ci.decl and not ci.decreases:
             self.note_assumption("termination of recursive %s not proved (no decreases clause)" % decl.qualname)
         self.used_contracts.add((decl.kind, decl.qualname))
+        log_entry = None
         if not decl.opts.get("pure"):
-            st.log.append((decl.qualname, env))      # ghost call log (pure observers are not recorded)
+            log_entry = dict(env)
+            st.log.append((decl.qualname, log_entry))      # ghost call log (pure observers are not recorded)
         ci.old = st.snapshot()
         whens = [w for (_, w, _, _) in ci.raises if w is not None]
         for cname, when, lab, _ in ci.raises:
@@ -374,6 +388,8 @@ class ContractMixin:
             st.fresh_refs.append(result)
         for lab, enode in ci.ensures:
             st.assume(self.eval_in_contract(ci, enode, st, {"result": result}))
+        if log_entry is not None:
+            log_entry["__result__"] = result
         yield st, result
 
     def assume_wellformed_result(self, st, v):
